@@ -128,8 +128,13 @@ def run(ctx):
             for n in astx.walk_fn(f.node):
                 if isinstance(n, ast.Name) and isinstance(n.ctx, ast.Load) and not sc.is_local(n.id):
                     free.add(n.id)
-            allowed = {"binomial", "Q", "factorial", "max", "min", "range", "int", "pow", "sum", "abs", "len"}
-            extra = sorted(free - allowed)
+            import builtins as _bi
+            allowed = {"binomial", "Q", "factorial", "max", "min", "range", "int", "pow", "sum", "abs", "len"} | set(dir(_bi))
+            # names of functions / classes (module-level defs of the package, imported library callables) are not state;
+            # what must not be read is a module-level VARIABLE (mutable configuration the cache would not be keyed by)
+            mod_vars = {t_.id for st_ in f.module.tree.body if isinstance(st_, (ast.Assign, ast.AnnAssign, ast.AugAssign))
+                        for t_ in (st_.targets if isinstance(st_, ast.Assign) else [st_.target]) if isinstance(t_, ast.Name)}
+            extra = sorted(x for x in free - allowed if x in mod_vars or (x not in f.module.imports and x not in f.module.functions and x not in f.module.classes))
             if extra and cached:
                 o.violated(f, f.node, f"{f.name} is memoised but also reads {extra}: the cache is not keyed by everything the value depends on")
 
